@@ -295,6 +295,66 @@ def build() -> Check:
     ck.ob("R3.replay-decision-sees-whole-history", fn_construct(wrapper), ok,
           f"the initial replay status is `{txt[:140]}`: it looks only at the first page, before the remaining pages are fetched - a history whose first page holds just the "
           "EXECUTION operation starts in NEW mode and every log line of already completed work is emitted again")
+    # ... and decides the right way round: a first invocation (one EXECUTION record, nothing more to fetch) starts NEW - every log call is emitted; anything
+    # else starts in REPLAY. The expression is evaluated on the three smallest histories (mutscan: the two enum members swapped, nothing noticed).
+    loc_def = {}
+    for st_ in ast.walk(wrapper.node):
+        if isinstance(st_, (ast.Assign, ast.AnnAssign)) and st_.value is not None:
+            tg_ = st_.target if isinstance(st_, ast.AnnAssign) else st_.targets[0]
+            if isinstance(tg_, ast.Name):
+                loc_def.setdefault(tg_.id, []).append(st_.value)
+
+    class _Und(Exception):
+        pass
+
+    def ev_(e, n_ops, marker, depth=0):
+        if depth > 12:
+            raise _Und("too deep")
+        if isinstance(e, ast.Constant):
+            return e.value
+        if isinstance(e, ast.IfExp):
+            return ev_(e.body if ev_(e.test, n_ops, marker, depth + 1) else e.orelse, n_ops, marker, depth + 1)
+        if isinstance(e, ast.BoolOp):
+            vals = [ev_(v, n_ops, marker, depth + 1) for v in e.values]
+            if isinstance(e.op, ast.Or):
+                return next((v for v in vals if v), vals[-1])
+            return next((v for v in vals if not v), vals[-1])
+        if isinstance(e, ast.UnaryOp) and isinstance(e.op, ast.Not):
+            return not ev_(e.operand, n_ops, marker, depth + 1)
+        if isinstance(e, ast.Compare) and len(e.ops) == 1:
+            l_, r_ = ev_(e.left, n_ops, marker, depth + 1), ev_(e.comparators[0], n_ops, marker, depth + 1)
+            op = e.ops[0]
+            if isinstance(op, (ast.Is, ast.Eq)):
+                return l_ == r_
+            if isinstance(op, (ast.IsNot, ast.NotEq)):
+                return l_ != r_
+            return {ast.Gt: l_ > r_, ast.GtE: l_ >= r_, ast.Lt: l_ < r_, ast.LtE: l_ <= r_}[type(op)]
+        if isinstance(e, ast.Call) and isinstance(e.func, ast.Name) and e.func.id in ("len", "bool") and len(e.args) == 1:
+            v = ev_(e.args[0], n_ops, marker, depth + 1)
+            return len(v) if e.func.id == "len" else bool(v)
+        if isinstance(e, ast.Attribute):
+            if isinstance(e.value, ast.Name) and e.value.id == "ReplayStatus":
+                return "ReplayStatus." + e.attr
+            if e.attr == "operations" and "initial_execution_state" in ast.unparse(e.value):
+                return ["op"] * n_ops
+            if e.attr == "next_marker" and "initial_execution_state" in ast.unparse(e.value):
+                return marker
+        if isinstance(e, ast.Name) and len(loc_def.get(e.id, [])) == 1:
+            return ev_(loc_def[e.id][0], n_ops, marker, depth + 1)
+        raise _Und(ast.unparse(e)[:60])
+    if rs is not None:
+        try:
+            got = {sc_: ev_(rs, *args_) for sc_, args_ in (("first invocation (1 record, no marker)", (1, "")), ("first invocation (1 record, marker None)", (1, None)),
+                                                         ("3 records on the first page", (3, "")), ("1 record and a marker", (1, "page-2")))}
+            want_ = {"first invocation (1 record, no marker)": "ReplayStatus.NEW", "first invocation (1 record, marker None)": "ReplayStatus.NEW",
+                     "3 records on the first page": "ReplayStatus.REPLAY", "1 record and a marker": "ReplayStatus.REPLAY"}
+            wrong = [f"{k_}: {got[k_]}" for k_ in want_ if got[k_] != want_[k_]]
+            ck.ob("R3.replay-decision-right-way-round", fn_construct(wrapper), not wrong,
+                  "; ".join(wrong) + ": a first invocation that starts in REPLAY mutes its own log calls until the first operation ends; a resumed one that starts NEW "
+                  "emits every log call of code an earlier invocation already ran" if wrong else "4 smallest histories")
+        except _Und as u_:
+            ck.undecided_rule(f"R3.replay-decision-right-way-round: the replay_status expression contains `{u_}`, which the evaluator does not know")
+
     # R5 the REPLAY -> NEW boundary is computed from the merged history -------------------------------
     sc = prog.cls("state", "ExecutionState")
     from sa.common import methods_writing_operations, self_method_calls
